@@ -22,6 +22,31 @@ def load_mutants():
         return json.load(fh)
 
 
+def load_seeded():
+    """Seeded changes written by independent sub-agents (seeded/<id>/patch.diff + meta.json): the ones with a non-empty caught_by must be reported by
+    the named rule; the declined ones (caught_by empty) must at least leave the check runnable."""
+    out = []
+    sd = os.path.join(VERIF, "seeded")
+    for name in sorted(os.listdir(sd)) if os.path.isdir(sd) else []:
+        mp = os.path.join(sd, name, "meta.json")
+        if not os.path.exists(mp):
+            continue
+        meta = json.load(open(mp))
+        if not meta.get("caught_by"):
+            continue
+        out.append({"id": "seeded:" + name, "prop": meta["property"], "patch": os.path.join(sd, name, "patch.diff"), "expect": meta["caught_by"][0]})
+    return out
+
+
+def apply_patch(mut, root):
+    r = subprocess.run(["patch", "-p1", "-s", "-i", mut["patch"]], cwd=root, stdout=subprocess.PIPE, stderr=subprocess.STDOUT, text=True)
+    return None if r.returncode == 0 else "patch does not apply: " + r.stdout[-200:]
+
+
+def unapply_patch(mut, root):
+    subprocess.run(["patch", "-p1", "-s", "-R", "-i", mut["patch"]], cwd=root, stdout=subprocess.PIPE, stderr=subprocess.STDOUT, text=True)
+
+
 def copy_repo(dst):
     subprocess.check_call(["rsync", "-a", "--exclude", "target", "--exclude", ".git", REPO + "/", dst + "/"])
 
@@ -67,7 +92,7 @@ def main():
     ap.add_argument("--seed", type=int, default=int(os.environ.get("VERIF_SEED", "0") or 0))
     ap.add_argument("--max", type=int, default=0)
     a = ap.parse_args()
-    muts = load_mutants()
+    muts = load_mutants() + load_seeded()
     if a.prop:
         muts = [m for m in muts if m["prop"] == a.prop]
     if a.only:
@@ -82,7 +107,10 @@ def main():
         copy_repo(scratch)
         for mu in muts:
             t0 = time.time()
-            orig, err = apply(mu, scratch)
+            if "patch" in mu:
+                orig, err = {}, apply_patch(mu, scratch)
+            else:
+                orig, err = apply(mu, scratch)
             if err:
                 results.append((mu["id"], "SKIP", err))
                 print(f"SKIP {mu['id']}: {err}", flush=True)
@@ -101,6 +129,8 @@ def main():
                 else:
                     st = ("MISSED", f"exit={r.returncode}; violations: {[v[:120] for v in viol[:4]]}")
             finally:
+                if "patch" in mu:
+                    unapply_patch(mu, scratch)
                 for q, src in orig.items():
                     open(q, "w").write(src)
             results.append((mu["id"], st[0], st[1]))
